@@ -34,31 +34,31 @@ type interp struct {
 	trace   bool
 	race    *raceMon
 	// ghost state used by overrides
-	clock     *sym.Term
-	stamp     int
-	observes  []observation
-	chanCaps  map[string]int
-	funcsSeen map[*ssa.Function]int
-	stubsSeen map[string]int
-	opaques   map[string]*opaque
-	killed    bool
-	mutexes    map[*value]*mutexState
-	wgs        map[*value]*wgState
-	afterFuncs []value
-	freeClock  bool
-	findingSet map[string]bool
-	chooseLog  []chooseRec
-	nameCount  map[string]int
-	curWhere   string
-	curInstr   ssa.Instruction
-	curFr      *frame
-	tickers    []*channel
-	promNames  map[string]string
-	skls       map[*value]*sklModel
+	clock       *sym.Term
+	stamp       int
+	observes    []observation
+	chanCaps    map[string]int
+	funcsSeen   map[*ssa.Function]int
+	stubsSeen   map[string]int
+	opaques     map[string]*opaque
+	killed      bool
+	mutexes     map[*value]*mutexState
+	wgs         map[*value]*wgState
+	afterFuncs  []value
+	freeClock   bool
+	findingSet  map[string]bool
+	chooseLog   []chooseRec
+	nameCount   map[string]int
+	curWhere    string
+	curInstr    ssa.Instruction
+	curFr       *frame
+	tickers     []*channel
+	promNames   map[string]string
+	skls        map[*value]*sklModel
 	httpHandler value
-	flights    map[*value]*sfCall
-	bigTaken   [][]value
-	lazyCells  []*value
+	flights     map[*value]*sfCall
+	bigTaken    [][]value
+	lazyCells   []*value
 }
 
 type chooseRec struct {
